@@ -80,36 +80,38 @@ SK["_tar_gz_filename_to_candidate"] = '''def _tar_gz_filename_to_candidate(sourc
     return Candidate(name, os.path.basename(filename), version, py_version=None, abi=None, plats=K1, link=source, candidate_type=DistributionType.SDIST)'''
 
 SK["parse_source_filename"] = '''def parse_source_filename(full_filename: str) -> Tuple[str, Optional[packaging.version.Version]]:
-    filename = full_filename.replace(K0, K1)
-    filename = filename.replace(K2, K3)
-    filename = filename.replace(K4, K5)
-    filename = filename.replace(K6, K7)
+    filename = full_filename
+    for ext in (K0, K1, K2, K3):
+        if filename.endswith(ext):
+            filename = filename[:-len(ext)]
+            break
     if full_filename == filename:
         return (full_filename, None)
-    filename = filename.replace(K8, K9)
-    dash_parts = filename.split(K10)
+    filename = filename.replace(K4, K5)
+    dash_parts = filename.split(K6)
     version_start = None
     for idx, part in enumerate(dash_parts):
         if not part:
             continue
-        if (idx != K11 and idx >= len(dash_parts) - K12) and (part[K13].isdigit() or (len(part) > K14 and part[K15].lower() == K16 and part[K17].isdigit())):
-            if idx == len(dash_parts) - K18 and K19 in dash_parts[idx + K20] and (K21 not in part or re.sub(K22, K23, part)):
+        if (idx != K7 and idx >= len(dash_parts) - K8) and (part[K9].isdigit() or (len(part) > K10 and part[K11].lower() == K12 and part[K13].isdigit())):
+            if idx == len(dash_parts) - K14 and K15 in dash_parts[idx + K16] and (K17 not in part or re.sub(K18, K19, part)):
                 continue
             version_start = idx
             break
     if version_start is None:
         return (os.path.basename(filename), None)
-    if version_start == K24:
-        raise ValueError(K25.format(full_filename))
-    pkg_name = K26.join(dash_parts[:version_start])
-    version_str = K27.join(dash_parts[version_start:]).replace(K28, K29)
-    version_parts = version_str.split(K30)
+    if version_start == K20:
+        raise ValueError(K21.format(full_filename))
+    pkg_name = K22.join(dash_parts[:version_start])
+    version_str = K23.join(dash_parts[version_start:]).replace(K24, K25)
+    version_str, plus, local_label = version_str.partition(K26)
+    version_parts = version_str.split(K27)
     for idx, part in enumerate(version_parts):
-        if idx != K31 and (part.startswith(K32) or part.startswith(K33) or part.startswith(K34)):
+        if idx != K28 and (part.startswith(K29) or part.startswith(K30) or part.startswith(K31)):
             version_parts = version_parts[:idx]
             break
     try:
-        version = utils.parse_version(K35.join(version_parts))
+        version = utils.parse_version(K32.join(version_parts) + plus + local_label)
     except Exception:
         version = None
     return (pkg_name, version)'''
@@ -151,8 +153,8 @@ SK["_check_py_constraint"] = '''def _check_py_constraint(version_constraint: str
         raise ValueError(K19.format(version_constraint))'''
 
 SK["handle_starttag"] = '''def handle_starttag(self, tag: str, attrs: List[Tuple[str, Optional[str]]]) -> None:
-    self.active_link = None
     if tag == K0:
+        self.active_link = None
         self.active_skip = False
         requires_python = None
         for attr in attrs:
@@ -165,6 +167,10 @@ SK["handle_starttag"] = '''def handle_starttag(self, tag: str, attrs: List[Tuple
                 self.active_skip = not check_python_compatibility(requires_python)
             except ValueError:
                 LOG.error(K9, requires_python, self.active_link)'''
+
+SK["handle_endtag"] = '''def handle_endtag(self, tag: str) -> None:
+    if tag == K0:
+        self.active_link = None'''
 
 SK["handle_data"] = '''def handle_data(self, data: str) -> None:
     if self.active_link is None or self.active_skip:
@@ -194,7 +200,7 @@ def resolve_candidate(self, candidate: Candidate) -> Tuple[RequirementContainer,
             _, _, hash_pair = resource.partition(K2)
             dist_info.hash = hash_pair.replace(K3, K4)
         return (dist_info, cached)
-    except MetadataError:
+    except CLEANUP_EXC:
         if not cached and filename is not None:
             try:
                 os.remove(filename)
@@ -296,6 +302,8 @@ def read_do_download() -> Tuple[List[Any], str, str]:
     c_outer, c_inner = _dl_cond(outer.test), _dl_cond(inner[0].test)
     outer.test = ast.Name(id="REUSE_OUTER", ctx=ast.Load())
     inner[0].test = ast.Name(id="REUSE_INNER", ctx=ast.Load())
+    # the error path of the transfer (C15's side) is not part of this model: a status check may be present
+    fn.body = [st for st in fn.body if not (isinstance(st, ast.Expr) and ast.unparse(st) == "response.raise_for_status()")]
     text, consts = skeleton(fn)
     if text.strip() != SK["_do_download"].strip():
         import difflib
@@ -312,7 +320,14 @@ def _fn(mod: ast.AST, name: str) -> ast.AST:
 
 
 def read(rel: str, name: str) -> List[Any]:
-    text, consts = skeleton(_fn(T.parse(rel), name))
+    fn = copy.deepcopy(_fn(T.parse(rel), name))
+    if name == "PyPIRepository.resolve_candidate":
+        # which exceptions trigger the removal of a fresh download is C15's side: MetadataError or any Exception
+        for node in ast.walk(fn):
+            if isinstance(node, ast.ExceptHandler) and node.type is not None and ast.unparse(node.type) in ("MetadataError", "Exception") \
+                    and any(isinstance(x, ast.Raise) and x.exc is None for x in node.body):
+                node.type = ast.Name(id="CLEANUP_EXC", ctx=ast.Load())
+    text, consts = skeleton(fn)
     if text.strip() != SK[name].strip():
         import difflib
         d = "\n".join(list(difflib.unified_diff(SK[name].strip().split("\n"), text.strip().split("\n"), "expected", "current", lineterm=""))[:40])
@@ -417,22 +432,22 @@ def gen_consts() -> Tuple[str, Dict[str, Any]]:
     d("sdist_plat", "string", T.coq_str(k[1]))
     info["missing_version"] = k[0]
     k = read("req_compile/filename.py", "parse_source_filename")
-    _need(k[1] == k[3] == k[5] == k[7] == "", "extension replacement is not the empty string")
-    d("src_exts", "list string", _strs([k[0], k[2], k[4], k[6]]))
-    _need((k[8], k[9]) == (k[28], k[29]), "the two underscore replacements differ")
-    d("src_us_repl", "ascii * ascii", f"({_chr(k[8], 'replace')}, {_chr(k[9], 'replace')})")
-    _need(k[10] == k[26] == k[27] and isinstance(k[10], str) and len(k[10]) == 1, "dash split/join separators differ")
-    d("src_dash", "ascii", _chr(k[10], "dash"))
-    _need(k[11] == 0 and k[13] == 0 and k[15] == 0 and k[14] == 1 and k[17] == 1 and k[20] == 1 and k[24] == 0 and k[31] == 0,
+    d("src_exts", "list string", _strs(k[0:4]))
+    _need((k[4], k[5]) == (k[24], k[25]), "the two underscore replacements differ")
+    d("src_us_repl", "ascii * ascii", f"({_chr(k[4], 'replace')}, {_chr(k[5], 'replace')})")
+    _need(k[6] == k[22] == k[23] and isinstance(k[6], str) and len(k[6]) == 1, "dash split/join separators differ")
+    d("src_dash", "ascii", _chr(k[6], "dash"))
+    _need(k[7] == 0 and k[9] == 0 and k[11] == 0 and k[10] == 1 and k[13] == 1 and k[16] == 1 and k[20] == 0 and k[28] == 0,
           "index constants of parse_source_filename changed")
-    d("src_window", "nat", _nat(k[12], "window"))
-    _need(isinstance(k[16], str) and len(k[16]) == 1 and k[16] == k[16].lower(), "v-prefix literal")
-    d("src_vchar", "ascii", _chr(k[16], "v prefix"))
-    d("src_lookahead", "nat", _nat(k[18], "lookahead position"))
-    _need(k[19] == k[21] == k[30] == k[35] == ".", "dot literals of parse_source_filename changed")
-    _need(k[22] == "[\\d.]+" and k[23] == "", "the digits-and-dots regex changed")
-    d("src_plat_prefixes", "list string", _strs(k[32:35]))
-    info["src_exts"] = [k[0], k[2], k[4], k[6]]
+    d("src_window", "nat", _nat(k[8], "window"))
+    _need(isinstance(k[12], str) and len(k[12]) == 1 and k[12] == k[12].lower(), "v-prefix literal")
+    d("src_vchar", "ascii", _chr(k[12], "v prefix"))
+    d("src_lookahead", "nat", _nat(k[14], "lookahead position"))
+    _need(k[15] == k[17] == k[27] == k[32] == ".", "dot literals of parse_source_filename changed")
+    _need(k[18] == "[\\d.]+" and k[19] == "", "the digits-and-dots regex changed")
+    d("src_local_sep", "ascii", _chr(k[26], "local version separator"))
+    d("src_plat_prefixes", "list string", _strs(k[29:32]))
+    info["src_exts"] = list(k[0:4])
     # --- requires-python
     k = read(PYPI, "check_python_compatibility")
     d("rp_comma", "ascii", _chr(k[0], "comma"))
@@ -469,6 +484,8 @@ def gen_consts() -> Tuple[str, Dict[str, Any]]:
     d("pg_anchor", "string", T.coq_str(k[0]))
     d("pg_href", "string", T.coq_str(k[2]))
     d("pg_requires_attrs", "list string", _strs([k[5], k[7]]))
+    ke = read(PYPI, "handle_endtag")
+    _need(ke[0] == k[0], "handle_endtag closes a different element than handle_starttag opens")
     read(PYPI, "handle_data")
     read(PYPI, "LinksHTMLParser.__init__")
     info["page"] = {"anchor": k[0], "href": k[2], "requires": [k[5], k[7]]}
